@@ -14,7 +14,41 @@ pub open spec fn last_dot(b: Seq<u8>, r: Option<usize>) -> bool {
               None => forall|j: int| 0 <= j < b.len() ==> b[j] != 46u8 }
 }
 pub open spec fn has_dotdot(b: Seq<u8>) -> bool { exists|i: int| 0 <= i && i + 1 < b.len() && #[trigger] b[i] == 46u8 && b[i + 1] == 46u8 }
-pub uninterp spec fn lex_lt(a: Seq<u8>, b: Seq<u8>) -> bool;
+// byte-wise lexicographic order (what `<` on `str` is)
+pub open spec fn lex_lt(a: Seq<u8>, b: Seq<u8>) -> bool
+    decreases a.len()
+{
+    if b.len() == 0 { false } else if a.len() == 0 { true } else if a[0] != b[0] { a[0] < b[0] } else { lex_lt(a.drop_first(), b.drop_first()) }
+}
+pub proof fn lemma_lex_irrefl(a: Seq<u8>)
+    ensures !lex_lt(a, a)
+    decreases a.len()
+{
+    if a.len() > 0 { lemma_lex_irrefl(a.drop_first()); }
+}
+pub proof fn lemma_lex_trans(a: Seq<u8>, b: Seq<u8>, c: Seq<u8>)
+    requires lex_lt(a, b), lex_lt(b, c)
+    ensures lex_lt(a, c)
+    decreases a.len()
+{
+    if a.len() > 0 && b.len() > 0 && c.len() > 0 && a[0] == b[0] && b[0] == c[0] {
+        lemma_lex_trans(a.drop_first(), b.drop_first(), c.drop_first());
+    }
+}
+pub proof fn lemma_lex_total(a: Seq<u8>, b: Seq<u8>)
+    ensures lex_lt(a, b) || a == b || lex_lt(b, a)
+    decreases a.len()
+{
+    if a.len() > 0 && b.len() > 0 && a[0] == b[0] {
+        lemma_lex_total(a.drop_first(), b.drop_first());
+        if a.drop_first() == b.drop_first() {
+            assert(a =~= seq![a[0]] + a.drop_first());
+            assert(b =~= seq![b[0]] + b.drop_first());
+        }
+    } else if a.len() == 0 && b.len() == 0 {
+        assert(a =~= b);
+    }
+}
 pub broadcast axiom fn axiom_dotdot_lit() ensures #[trigger] sb("..") == seq![46u8, 46u8];
 pub trait VxStr {
     spec fn vx_sb(&self) -> Seq<u8>;
